@@ -521,7 +521,9 @@ func TestVerifDriver(t *testing.T) {
 				par = append(par, v.In)
 				continue
 			}
+			vForce = v.Mode
 			emit(v.Op, v.In)
+			vForce = ""
 		}
 		if len(par) > 0 {
 			for len(par) < 64 { // keep the goroutines busy also when only a few events are replayed
